@@ -467,7 +467,9 @@ pub fn check(tier: Tier) -> CheckOutcome {
     let progs = programs(if tier == Tier::Quick { 2 } else { 3 });
     let cfgs = grid(tier);
     let mut results: Vec<Option<Result<ConfigResult, String>>> = (0..cfgs.len()).map(|_| None).collect();
-    crate::watchdog::working_on("C20 configuration grid".into());
+    // the real binary when the entry script built it (always for `run check C20`), else `mc serve`
+    let memcrsd: Option<String> = std::env::var("MEMCRSD_BIN").ok().filter(|p| std::path::Path::new(p).exists());
+    let memcrsd_ref: Option<&str> = memcrsd.as_deref();
     // batches of configurations in parallel (each has its own loopback address)
     let batch = 16;
     for (bi, chunk) in cfgs.chunks(batch).enumerate() {
@@ -479,7 +481,7 @@ pub fn check(tier: Tier) -> CheckOutcome {
                     let progs = &progs;
                     s.spawn(move || {
                         crate::watchdog::working_on(format!("C20 {}", c.name()));
-                        let r = drive(c, bi * batch + i, progs, None);
+                        let r = drive(c, bi * batch + i, progs, memcrsd_ref);
                         crate::watchdog::idle();
                         r
                     })
@@ -534,6 +536,7 @@ pub fn check(tier: Tier) -> CheckOutcome {
             "evaluations": cfgs.len() * (progs.len() + 3),
             "distinct_nontrivial": cfgs.len(),
             "configurations": cfgs.len(),
+            "server_binary": if memcrsd.is_some() { "memcrsd built from /repo's working tree with the verification feature off (its own main)" } else { "mc serve: cli::parser::parse + create_memcrs_server + block_on(timer.run()), the statements of memcrsd's main" },
             "programs_per_configuration": progs.len(),
             "programs_run": programs_run,
             "samples": samples,
